@@ -143,7 +143,9 @@ func c19Body(typ string, data interface{}) []byte {
 	return b
 }
 
-var c19Mutants = []interface{}{nil, "", "x", 0, -1, 1.5, true, []interface{}{}, []interface{}{1, "a"}, map[string]interface{}{}, map[string]interface{}{"a": map[string]interface{}{"b": 1}}, json.RawMessage("1e400"), strings.Repeat("n", 300)}
+var c19Mutants = []interface{}{nil, "", "x", 0, -1, 1.5, true, []interface{}{}, []interface{}{1, "a"}, map[string]interface{}{}, map[string]interface{}{"a": map[string]interface{}{"b": 1}}, json.RawMessage("1e400"), strings.Repeat("n", 300),
+	// strings that are not valid UTF-8 (raw bytes inside a JSON string literal), and control characters
+	json.RawMessage("\"\xff\xfe\""), json.RawMessage("\"a\xc3\""), "\x00\x01"}
 
 // mutate returns every copy of v with exactly one leaf / subtree replaced by a mutant value.
 func c19Mutate(v interface{}) []interface{} {
